@@ -79,8 +79,8 @@ pub fn tier(name: &str) -> Tier {
             sizes: PoolSizes { gen_per_ev: 600, cross_texts: 110, malformed_per_ev: 60, extreme_per_ev: 100, sibling_families_per_ev: 40, pair_samples_per_ev: 120, all_pairs: false, max_corpus: 300 },
             recheck_every: 7,
             det_seeds: 200,
-            short_runs: 60_000,
-            short_budget_s: 34,
+            short_runs: 100_000,
+            short_budget_s: 45,
             wide_runs: 1_500,
             long_runs: 32,
             long_calls: 8_000,
@@ -97,6 +97,7 @@ pub struct BatchStats {
     pub ok: u64,
     pub violations: Vec<(usize, Value)>, // run index, record
     pub inconclusive: u64,
+    pub inconclusive_why: BTreeMap<String, u64>,
     pub lost_control: u64,
     pub crashed: u64,
     pub calls: u64,
@@ -238,6 +239,7 @@ pub fn run_batch(
                 "inconclusive" => {
                     consecutive_lost = 0;
                     bs.inconclusive += 1;
+                    *bs.inconclusive_why.entry(r.rec.get("why").and_then(|x| x.as_str()).unwrap_or("?").to_string()).or_insert(0) += 1;
                 }
                 "lost_control" => {
                     bs.lost_control += 1;
@@ -334,7 +336,7 @@ fn batch_json(b: &BatchStats) -> Value {
     let (filled, cells) = pairs_fill(&b.pairs);
     json!({
         "name": b.name, "runs_planned": b.planned, "runs_with_verdict": b.completed, "ok": b.ok,
-        "violations": b.violations.len(), "inconclusive_step_cap": b.inconclusive, "lost_control": b.lost_control,
+        "violations": b.violations.len(), "inconclusive": b.inconclusive, "inconclusive_by_reason": b.inconclusive_why, "lost_control": b.lost_control,
         "crashed": b.crashed, "crash_examples": b.crash_examples, "degraded_to_call_granularity": b.degraded,
         "calls": b.calls, "ticks": b.ticks, "block_ticks": b.block_ticks, "decision_points": b.steps, "context_switches": b.switches,
         "shared_access_hits": b.shared_hits, "futex_waits_intercepted": b.futex_waits, "virtual_clock_reads": b.clock_reads,
@@ -815,7 +817,7 @@ pub fn check(o: &CheckOpts) -> i32 {
     );
     // ---- stall-and-wrap: a caller parked mid-call while another makes 2^8 / 2^16 (+ d) distinct calls of the same
     //      evaluator, over a filler pool of trivially distinct formulas ("<i>+@")
-    println!("search batches done at {:.1}s", t0.elapsed().as_secs_f64());
+
     let stall_evs: Vec<Ev> = if !hints.evs.is_empty() { hints.evs.iter().copied().take(2).collect() } else { vec![ALL_EV[(o.seed % 5) as usize]] };
     let mut filler_pools: Vec<(Pool, PoolIndex)> = Vec::new();
     for ev in &stall_evs {
@@ -834,12 +836,12 @@ pub fn check(o: &CheckOpts) -> i32 {
             cand.by_text.entry(text.clone()).or_default().push(id);
             cand.entries.push(gen::Entry { call: Call { ev: *ev, expr: text, ph }, expr_id: id, origin: "filler", oracle: Outcome::Panic(String::new()), ticks: 0, trace: 0, sensitive: false, text_id: 0 });
         }
-        println!("  filler candidates built at {:.1}s", t0.elapsed().as_secs_f64());
+
         let (mut fp, fst) = oracle::oracle_pass(cand, w, 0);
-        println!("  filler oracle done at {:.1}s", t0.elapsed().as_secs_f64());
+
         if fst.kept == fst.candidates {
             let fix = workload::index_pool(&mut fp);
-            println!("  filler index done at {:.1}s", t0.elapsed().as_secs_f64());
+
             oc.seed_from_pool(&fp);
             filler_pools.push((fp, fix));
         }
@@ -1103,7 +1105,7 @@ pub fn check(o: &CheckOpts) -> i32 {
                 "placeholder_sensitive_calls_executed": sens,
                 "placeholder_sensitive_share": if calls > 0 { (sens as f64 / calls as f64 * 1000.0).round() / 1000.0 } else { 0.0 },
             },
-            "no_verdict_runs": {"inconclusive_step_cap": inconc, "lost_control": lost, "crashed": crashed, "degraded": degraded},
+            "no_verdict_runs": {"inconclusive_step_cap_or_deadlock": inconc, "lost_control": lost, "crashed": crashed, "degraded": degraded},
             "determinism_selfcheck": {"seeds": det_n, "comparisons": det_compared, "mismatches": det_mismatch, "worker_counts": [w, 4.min(w), 1]},
             "uncontrolled_sources": audit,
             "ambient_recheck": {"ran": amb.ran, "reason": amb.reason, "calls": amb.calls, "compared": amb.compared, "mismatches": amb.mismatches.len(),
@@ -1137,7 +1139,7 @@ pub fn check(o: &CheckOpts) -> i32 {
         return 2;
     }
     println!(
-        "C16: {} runs with verdict ({} distinct schedules with intra-call pre-emption), {} calls, {} ticks, {} switches; no-verdict: {} step-cap, {} lost-control, {} crashed; site-pair fill {}/{}; wall {:.1}s",
+        "C16: {} runs with verdict ({} distinct schedules with intra-call pre-emption), {} calls, {} ticks, {} switches; no-verdict: {} inconclusive (step cap / deadlock), {} lost-control, {} crashed; site-pair fill {}/{}; wall {:.1}s",
         evaluations, nontrivial.len(), calls, ticks, switches, inconc, lost, crashed, filled, cells, wall
     );
     println!("fault kinds fired: {}", (0..10).map(|k| format!("{}={}", FAULT_NAMES[k], f[k])).collect::<Vec<_>>().join(" "));
